@@ -56,6 +56,25 @@ Proof.
     + exfalso. apply H. reflexivity.
 Qed.
 
+Lemma lambda_map_ext c param body items :
+  lambda_map ev1 c param body items <> inl EFuel ->
+  lambda_map ev2 c param body items = lambda_map ev1 c param body items.
+Proof.
+  induction items as [|it items IH]; simpl; intro H; [reflexivity|].
+  set (c' := set_scopes c _) in *.
+  destruct (ev1 c' body) eqn:E.
+  - rewrite (ext_eq _ _ _ E) by discriminate.
+    destruct (lambda_map ev1 c param body items) as [r|rs] eqn:El.
+    + rewrite IH by (intro K; apply H; rewrite K; reflexivity). reflexivity.
+    + rewrite IH by discriminate. reflexivity.
+  - rewrite (ext_eq _ _ _ E) by discriminate. reflexivity.
+  - rewrite (ext_eq _ _ _ E) by discriminate. reflexivity.
+  - exfalso. apply H. reflexivity.
+Qed.
+
+Lemma lambda_result_not_fuel lf items rvs : lambda_result lf items rvs <> EFuel.
+Proof. destruct lf; discriminate. Qed.
+
 Lemma walk_not_fuel obj keys : walk obj keys <> EFuel.
 Proof.
   revert obj. induction keys as [|k keys IH]; intro obj; simpl; [discriminate|].
@@ -112,6 +131,11 @@ Proof.
   - sub c e1. destruct (is_truthy v).
     + apply Hx.
     + destruct alt; [apply Hx|reflexivity].
+  - (* lambda filter *)
+    sub c e1. destruct (sequence_arg v) as [items|]; [|reflexivity].
+    destruct (dlimit c <? scope_size c)%Z; [reflexivity|].
+    intro H. rewrite lambda_map_ext; [reflexivity|].
+    intro K. apply H. rewrite K. reflexivity.
 Qed.
 
 End EvalExt.
